@@ -51,7 +51,7 @@ Bad(e) ==
   IF Waiting(t)
   THEN LET what == IF e.r # "found" THEN e.r
                    ELSE IF e.node # br[t].node THEN "wrongnode"
-                   ELSE IF ~e.eq THEN "fields"
+                   ELSE IF ~e.fieldsEqual THEN "fields"
                    ELSE IF ~e.addrOk THEN "addr" ELSE "ok"
        IN IF what = "ok" THEN {} ELSE {V("Resolve", be \o ":" \o what \o ":" \o br[t].cls)}
   ELSE IF e.r = "found" THEN {V("Gone", be \o ":" \o why[t])} ELSE {}
